@@ -17,6 +17,7 @@ import (
 	"verif/engine/props/c11"
 	"verif/engine/props/c12"
 	"verif/engine/props/c13"
+	"verif/engine/props/c14"
 	"verif/engine/props/c18"
 	"verif/engine/props/c19"
 	"verif/engine/props/c20"
@@ -39,6 +40,7 @@ var checks = map[string]struct {
 	"C11": {"translation_validation", c11.Run},
 	"C12": {"model_checking", c12.Run},
 	"C13": {"model_checking", c13.Run},
+	"C14": {"model_checking", c14.Run},
 	"C18": {"model_checking", c18.Run},
 	"C19": {"model_checking", c19.Run},
 	"C20": {"model_checking", c20.Run},
